@@ -266,7 +266,7 @@ pub fn run(ctx: &Ctx) -> (Stats, Spec) {
     let wk_iters = ctx.tier.pick(3_000u64, 60_000u64);
     let parts = with_stderr_gagged(|| util::par_jobs(16, |job| super::weak::weak_hash_job(ctx, "C20", job, wk_iters)));
     st.merge(crate::report::merge_all(parts));
-    let wide_iters = ctx.tier.pick(400u64, 8_000u64);
+    let wide_iters = ctx.tier.pick(100u64, 3_000u64);
     let parts = with_stderr_gagged(|| util::par_jobs(16, |job| super::wide::wide_job(ctx, "C20", job, wide_iters)));
     st.merge(crate::report::merge_all(parts));
     let spec = Spec {
